@@ -29,7 +29,7 @@ def build_reply(qname, qtype, answers, rcode=0, compress=True, flags=0x8180):
         msg += enc_name(owner, table, len(msg), compress)
         if rd[0] == 'a':
             rdata = bytes(int(x) for x in rd[1].split('.'))
-        elif rd[0] == 'cname':
+        elif rd[0] in ('cname', 'ptr'):
             rdata = enc_name(rd[1], table, len(msg) + 10, compress)
         else:
             rdata = rd[1]
@@ -163,7 +163,11 @@ class C37(hc.PProp):
     def plan(self, rng, tier, index):
         plan = hc.std_plan(rng, {'cache': 'none', 'lines': ['dns_timeout 6 seconds', 'dns_retransmit_interval 1 seconds', 'connect_timeout 2 seconds', 'positive_dns_ttl 1 seconds', 'negative_dns_ttl 1 seconds']}, hostile=False)
         plan['names'] = [{'id': index * 100 + k, 'recipe': rng.choice(RECIPES), 'seed': rng.getrandbits(32)} for k in range(rng.randint(10, 30))]
-        plan['_lists'] = ['names']
+        # reverse lookups: requests for IP-literal URLs make the dstdomain ACL ask for PTR records (one per origin address and run)
+        plan['conf']['lines'] += ['acl blockedrev dstdomain .blocked.test', 'http_access deny blockedrev']
+        ips = rng.sample(range(1, 10), rng.randint(0, 4))
+        plan['revs'] = [{'id': index * 100 + 60 + k, 'ip': ip, 'recipe': rng.choice(['ptr_one', 'ptr_one_blocked', 'ptr_multi', 'ptr_multi_blocked', 'ptr_2317', 'ptr_mutated', 'ptr_2317']), 'seed': rng.getrandbits(32)} for k, ip in enumerate(ips)]
+        plan['_lists'] = ['names', 'revs']
         return plan
 
     def make_answers(self, n):
@@ -236,6 +240,27 @@ class C37(hc.PProp):
             cl.add('send %s' % tok(hc.request_head(b'GET', b'http://%s/x' % host.encode(), [(b'Host', host.encode()), (b'X-Sim-Req', b'%d' % n['id'])])))
             cl.add('expect response timeout 40000000 soft')
             cl.add('close')
+        for rv in plan.get('revs', []):
+            rng = random.Random(rv['seed'])
+            q = '%d.2.0.10.in-addr.arpa' % rv['ip']
+            blocked = rv['recipe'].endswith('_blocked')
+            dom = 'blocked.test' if blocked else 'fine.test'
+            if rv['recipe'].startswith('ptr_one'):
+                m = build_reply(q, 12, [(q, 12, 60, ('ptr', 'a%d.%s' % (rv['id'], dom)))], compress=rng.random() < 0.5)
+            elif rv['recipe'].startswith('ptr_multi'):
+                m = build_reply(q, 12, [(q, 12, 60, ('ptr', '%s%d.%s' % (x, rv['id'], dom))) for x in 'abc'[:rng.randint(2, 3)]], compress=True)
+            elif rv['recipe'] == 'ptr_2317':     # classless delegation: CNAME, then a PTR whose compressed RDATA ends the message
+                alias = '%d.0-25.2.0.10.in-addr.arpa' % rv['ip']
+                m = build_reply(q, 12, [(q, 5, 60, ('cname', alias)), (alias, 12, 60, ('ptr', 'z%d.sub.%s' % (rv['id'], alias.split('.', 1)[1])))], compress=True)
+            else:
+                m = mutate(build_reply(q, 12, [(q, 12, 60, ('ptr', 'a%d.fine.test' % rv['id'])), (q, 12, 60, ('ptr', 'b%d.fine.test' % rv['id']))], compress=True), rng, rng.randint(1, 4))
+            d.add('host %s 12 raw %s' % (q, tok(m)))
+            ip = '10.0.2.%d' % rv['ip']
+            expect[str(rv['id'])] = {'host': ip, 'allowed': [ip], 'well': rv['recipe'] != 'ptr_mutated', 'recipe': rv['recipe'], 'rev': True, 'blocked': blocked}
+            cl.add('connect %s %d' % (hc.SQUID_IP, hc.SQUID_PORT))
+            cl.add('send %s' % tok(hc.request_head(b'GET', b'http://%s/x' % ip.encode(), [(b'Host', ip.encode()), (b'X-Sim-Req', b'%d' % rv['id'])])))
+            cl.add('expect response timeout 40000000 soft')
+            cl.add('close')
         return scn, expect
 
     def execute(self, plan, workdir):
@@ -257,6 +282,9 @@ class C37(hc.PProp):
         for p in hist.health_problems():
             V.append(Violation('C37:' + re.sub(r'[^a-zA-Z0-9:._-]+', '-', p)[:80], p))
         hosts = {e['host']: rid for rid, e in expect.items()}
+        for rid, e in expect.items():
+            if e.get('rev'):
+                hosts['%s.in-addr.arpa' % '.'.join(reversed(e['host'].split('.')))] = rid
         for (seq, t, kind, rest) in hist.udp:
             if kind != 'UDPS' or not rest[1].endswith(':53'):
                 continue
@@ -302,6 +330,13 @@ class C37(hc.PProp):
                 V.append(Violation('C37:connected-to-address-not-in-answer:%s' % e['recipe'], 'resolving %s (%s answer) squid connected to %s; addresses in the answer: %s' % (e['host'], e['recipe'], bad, e['allowed'])))
             if final is not None and hc.is_squid_error(final):
                 stats['dns_failures_reported'] += 1
+            if e.get('rev') and e['recipe'] in ('ptr_one', 'ptr_multi', 'ptr_one_blocked', 'ptr_multi_blocked') and not hist.health_problems():
+                # every decoded name lies in the same domain, so the dstdomain verdict does not depend on which PTR record squid picks
+                stats['ptr_verdicts_judged'] = stats.get('ptr_verdicts_judged', 0) + 1
+                if e['blocked'] and tried:
+                    V.append(Violation('C37:ptr-names-not-decoded:%s' % e['recipe'], 'request for %s: every PTR name lies in .blocked.test, yet the request was forwarded' % e['host']))
+                if not e['blocked'] and final is not None and final.status == 403:
+                    V.append(Violation('C37:ptr-names-not-decoded:%s' % e['recipe'], 'request for %s: no PTR name lies in .blocked.test, yet the request was denied' % e['host']))
             if e['well'] and e['allowed'] and e['recipe'] in ('a', 'multi_a', 'cname', 'cname_chain', 'compressed', 'nocompress', 'extra_records') and not tried and not hist.health_problems():
                 V.append(Violation('C37:wellformed-answer-not-used:%s' % e['recipe'], 'resolving %s: the well-formed %s answer with %s was not used (response %s)' % (e['host'], e['recipe'], e['allowed'], final.start if final else None)))
         o.stats = stats
